@@ -75,6 +75,8 @@ pub struct Case {
     pub program: Vec<Node>,
     pub front_end: FrontEnd,
     pub faults: bool,
+    #[serde(default)]
+    pub via_entry: bool,
     pub cfg: SimConfig,
 }
 
@@ -559,7 +561,8 @@ impl C16 {
                 _ => vec![rng.range(1, 40) as usize, rng.range(1, 5) as usize],
             };
         }
-        Case { class, program, front_end, faults, cfg }
+        let via_entry = rng.below(3) == 0;
+        Case { class, program, front_end, faults, via_entry, cfg }
     }
 }
 
@@ -732,6 +735,7 @@ pub fn judge(case: &Case) -> Verdict {
         let mut spec = RunSpec::new(script.clone(), case.front_end.clone(), cfg.clone());
         spec.files = files.clone();
         spec.needs_dir = true;
+        spec.via_entry = case.via_entry;
         spec
     };
     let r = runner::run(&mk(&case.cfg));
@@ -981,7 +985,7 @@ impl Check for C16 {
     fn components(&self) -> Value {
         json!({
             "real": ["brush-core shell/traps.rs (on_exit, invoke_trap_handler), shell/execution.rs (run_script, run_dash_c_command), traps.rs, callstack.rs, interp.rs (ERR trap, errexit)", "brush-interactive interactive_shell.rs run_interactively (stdin front-end)", "brush-builtins trap/exit/eval/./set"],
-            "stub": ["brush-shell entry.rs: the front-end functions are called directly and the process status is taken as the shell's last exit status, as entry.rs does", "`exec` replacing the shell is not exercised (it would replace the simulator)", "stdout/stderr/stdin -> simulated streams with injected failures"]
+            "stub": ["brush-shell entry.rs is exercised in a third of the cases (verif_run: argument parsing, instantiate_shell, run_in_shell, returned status); in the others the front-end functions are called directly and the status is the shell's last exit status", "`exec` replacing the shell is not exercised (it would replace the simulator)", "stdout/stderr/stdin -> simulated streams with injected failures"]
         })
     }
     fn assumptions(&self) -> Vec<String> {
